@@ -43,4 +43,6 @@ func verifMatchPrefix(s, prefix string) bool       { panic("symbolic only") }
 func verifAppended(s, prefix, piece string) bool   { panic("symbolic only") }
 func verifParam(tag string) int                    { panic("symbolic only") }
 func verifNoteURL(raw, out string, ok bool)        { panic("symbolic only") }
+func verifURLStubCount() int                       { panic("symbolic only") }
+func verifURLStubProduced(v string) bool           { panic("symbolic only") }
 func verifSameObject(a, b interface{}) bool        { panic("symbolic only") }
